@@ -375,6 +375,36 @@ def c06(ctx):
                              "shape": "cfg:" + ",".join("%s=%s" % (k.replace("limit_request_", ""), x) for k, x in sorted(cfgkw.items())),
                              "digests": [x[:600] for x in list(digs.keys())[:3]], "kinds": _kinds(digs), "exc": None,
                              "cuts": "seg_set", "nseg": len(segsets)})
+    # streams built around the buffer caps that small (or switched-off) limits give: a head-less request followed by more
+    # pipelined bytes than the header-block cap, a trailer block around / beyond the cap with the field size unlimited, heads
+    # at the cap -- every single cut, coarse reads of the usual sizes, random cuts
+    big = []
+    fol = b"GET /b HTTP/1.1\r\nX-A: " + b"a" * 20 + b"\r\nX-B: " + b"b" * 20 + b"\r\n\r\n"
+    big.append(({"limit_request_fields": 2, "limit_request_field_size": 30}, b"GET /a HTTP/1.1\r\n\r\n" + fol, "headless+pipelined"))
+    big.append(({"limit_request_fields": 2, "limit_request_field_size": 30}, b"POST /a HTTP/1.1\r\nContent-Length: 3\r\n\r\nabc" + fol + fol, "body+pipelined"))
+    for tl in (100, 16380, 16390, 17000) if not ctx.quick else (16390, 17000):
+        big.append(({"limit_request_fields": 2, "limit_request_field_size": 0},
+                    b"POST /t HTTP/1.1\r\nTransfer-Encoding: chunked\r\n\r\n5\r\nhello\r\n0\r\nX-T: " + b"t" * tl + b"\r\n\r\n" + fol, "trailer=%d" % tl))
+    for hl in (8100, 8190, 8200):
+        big.append(({}, b"GET /h HTTP/1.1\r\nX-Long: " + b"h" * hl + b"\r\n\r\n" + fol, "header=%d" % hl))
+    for cfgkw, data, label in big:
+        cfgv = drv.make_cfg(**cfgkw)
+        n = len(data)
+        firstend = data.find(b"\r\n") + 2
+        segsets = [[]] + [list(range(k, n, k)) for k in (8192, 4096, 1000, 100, 7, 1)] + \
+            [[i] for i in (range(1, n) if n < 400 else list(range(1, 60)) + list(range(n - 60, n)))] + \
+            [[firstend, firstend + 1], [firstend + 1], [firstend - 1, firstend + 1]] + [rand_cuts(rng, n) for _ in range(8)]
+        digs, ev = {}, []
+        for si, cuts in enumerate(segsets):
+            obs = drv.run(data, [c for c in cuts if 0 < c < n], cfg=cfgv, mode="read", source="sock" if si % 3 == 2 else "iter")
+            nruns += 1
+            d = json.dumps(drv.digest(obs), sort_keys=True)
+            ev.append({"e": "seg", "dig": digs.setdefault(d, len(digs) + 1)})
+        traces.append({"ms": [], "cut": 0, "mode": "read", "ev": ev})
+        meta.append({"family": "caps", "case": 0, "variant": 0, "bytes": data[:300].decode("latin-1"),
+                     "shape": "caps:" + label + "," + ",".join("%s=%s" % (k.replace("limit_request_", ""), x) for k, x in sorted(cfgkw.items())),
+                     "digests": [x[:600] for x in list(digs.keys())[:3]], "kinds": _kinds(digs), "exc": None,
+                     "cuts": "seg_set", "nseg": len(segsets)})
     ctx.coverage["parser_runs"] = nruns
     # through the workers' connection handling: the requests the application sees must not depend on how the bytes
     # were split across reads either (kept-alive connections go back to the poller / handler loop between requests)
@@ -737,7 +767,7 @@ def c12(ctx):
     lines = [0, 20, 64, 4094, 8190, 9000] if ctx.quick else [0, 15, 20, 64, 1000, 4094, 8189, 8190, 9000, 40000]
     fieldss = [1, 3, 100] if ctx.quick else [1, 2, 3, 10, 100, 1000, 0]
     fsizes = [0, 16, 64, 8190] if ctx.quick else [0, 12, 16, 64, 1000, 8190, 20000]
-    cutkinds = ["whole", "rand", "8k"] + ([] if ctx.quick else ["bytes"])
+    cutkinds = ["whole", "rand", "8k"] + ([] if ctx.quick else ["bytes", "rand", "rand", "rand", "mid", "eol"])
     # request-line boundary
     for L in lines:
         eff = eff_limits(L, 100, 8190)["line"] or 5000
@@ -753,6 +783,10 @@ def c12(ctx):
                     # the same request after a PROXY protocol preamble (first request of a connection);
                     # the preamble line itself is read under the same limit, so only limits it fits in
                     add(*limit_record(ctx, {"limit_request_line": L}, rl, [("plain", 12)], ck, rng, proxy=True))
+    # limit_request_line = 0 is "unlimited": lines beyond the hard maximum of the other settings are within the limits
+    for rl in (8189, 8190, 8191, 8192, 9000, 20000) + (() if ctx.quick else (65535, 70000, 200000)):
+        for ck in ("whole", "rand", "8k"):
+            add(*limit_record(ctx, {"limit_request_line": 0}, rl, [("plain", 12)], ck, rng))
     # field-count boundary, with and without fields that the default header_map drops
     for F in fieldss:
         eff = eff_limits(4094, F, 8190)["fields"]
@@ -778,9 +812,11 @@ def c12(ctx):
                 if ck == "bytes" and ln > 300:
                     continue
                 for pos in (0, 2):
-                    fields = [("plain", 12)] * 3
-                    fields[pos] = ("plain", ln)
-                    add(*limit_record(ctx, {"limit_request_field_size": S}, 14, fields, ck, rng))
+                    # (an over-long field is over-long whether or not the default header_map drops its name later)
+                    for kind in ("plain", "under"):
+                        fields = [("plain", 12)] * 3
+                        fields[pos] = (kind, ln)
+                        add(*limit_record(ctx, {"limit_request_field_size": S}, 14, fields, ck, rng))
     # obsolete line folding permitted: the limit counts fields, not physical lines
     for F in (3, 6, 100):
         for nfold in (F - 1, F + 5, 3 * F):
